@@ -1730,3 +1730,9 @@ def free_vars(ts):
         else:
             stack.extend(t.children())
     return out
+
+
+def sym_apply(fn, example_args, sym_args, **kw):
+    """trace fn at example_args (a tuple) and evaluate it on the object-array pytree sym_args (same structure)"""
+    flat, _ = jax.tree_util.tree_flatten(sym_args, is_leaf=lambda t: isinstance(t, np.ndarray))
+    return sym_trace(fn, *example_args, sym_in=flat, **kw)
